@@ -7,6 +7,7 @@ import (
 
 	"github.com/google/uuid"
 	"github.com/practable/relay/internal/permission"
+	"github.com/practable/relay/internal/verifhook"
 )
 
 // ExpToken represents a token and its expiry time.
@@ -50,6 +51,9 @@ type CodeStore struct {
 
 // GetTime gets the current Unix time in seconds.
 func GetTime() int64 {
+	if t, ok := verifhook.Now(); ok {
+		return t
+	}
 	return time.Now().Unix()
 }
 
